@@ -10,7 +10,7 @@ import sys
 import tempfile
 import time
 
-N_IDX = int(os.environ.get('FB_IDX', '300'))
+N_IDX = int(os.environ.get('FB_IDX', '800'))
 
 
 def main():
